@@ -963,6 +963,13 @@ impl Server {
             }
         }
         
+        // A client the server closes itself (QUIT, protocol error) is gone for pub/sub from this moment, not only
+        // when the connection is physically removed: a PUBLISH executed meanwhile must neither count it nor
+        // append a message behind its last reply
+        if should_close {
+            let _ = self.pubsub.unsubscribe_all(id);
+        }
+        
         // Third phase: send responses with special handling for commands needing immediate delivery
         let frames_processed_count = responses.len();
         let has_pending_writes = self.connections.with_connection(id, |conn| -> Result<bool> {
@@ -1756,15 +1763,21 @@ impl Server {
             "MEMORY" => crate::storage::commands::memory::handle_memory(parts, &self.storage, db),
             // Client commands
             "CLIENT" => {
-                // Get a mutable reference to clients_paused_until for CLIENT PAUSE
-                let mut paused_until = self.clients_paused_until.lock().unwrap();
-                // Use &* to get a reference to the ShardedConnections inside the Arc
-                crate::storage::commands::client::handle_client(
-                    parts,
-                    &*self.connections,
-                    conn_id,
-                    Some(&mut *paused_until)
-                )
+                let result = {
+                    // Get a mutable reference to clients_paused_until for CLIENT PAUSE
+                    let mut paused_until = self.clients_paused_until.lock().unwrap();
+                    // Use &* to get a reference to the ShardedConnections inside the Arc
+                    crate::storage::commands::client::handle_client(
+                        parts,
+                        &*self.connections,
+                        conn_id,
+                        Some(&mut *paused_until)
+                    )
+                };
+                // CLIENT KILL only marks its victims as closing: they are gone for pub/sub at once (the next
+                // command, e.g. a PUBLISH in the same EXEC or pipeline, must not count or reach them)
+                self.release_closing_subscribers();
+                result
             },
             // Auth command  
             "AUTH" => self.handle_auth(parts, 0), // Special handling for AUTH in process_frame
@@ -3900,6 +3913,16 @@ impl Server {
 
 
 
+    /// Subscriptions of connections that are marked as closing are released at that moment
+    fn release_closing_subscribers(&self) {
+        for id in self.connections.all_connection_ids() {
+            let closing = self.connections.with_connection(id, |conn| conn.is_closing()).unwrap_or(false);
+            if closing && self.pubsub.is_subscribed(id) {
+                let _ = self.pubsub.unsubscribe_all(id);
+            }
+        }
+    }
+    
     /// Clean up closed connections
     fn cleanup_connections(&mut self) -> Result<()> {
         let mut to_remove = Vec::new();
@@ -3922,6 +3945,15 @@ impl Server {
                 }
                 true
             }).unwrap_or(false);
+            
+            if !should_remove {
+                // kept only to drain what it is owed (peer closed its sending side, the server gave up on a
+                // lagging client, ...): whatever path marked it closing, it receives and counts no more
+                let closing = self.connections.with_connection(id, |conn| conn.is_closing()).unwrap_or(false);
+                if closing && self.pubsub.is_subscribed(id) {
+                    let _ = self.pubsub.unsubscribe_all(id);
+                }
+            }
             
             if should_remove {
                 // A closing connection (peer went away, or QUIT) is dropped whether or not it
